@@ -59,9 +59,12 @@ WriterLockFree(locks) == ".tantivy-writer.lock" \notin SeqToSet(locks)
 
 Known(tag) == PrintT(<<"KF", tag, l>>)
 
-Clean == [on |-> FALSE, adds |-> 0, other |-> FALSE, flushed |-> FALSE]
-AfterAdd(d) == [on |-> TRUE, adds |-> d.adds + 1, other |-> d.other, flushed |-> FALSE]
-AfterOther(d) == [on |-> TRUE, adds |-> d.adds, other |-> TRUE, flushed |-> FALSE]
+\* (wdel: this writer object has issued a delete since it was created - kept across commits, see TDeleteAll)
+Clean == [on |-> FALSE, adds |-> 0, other |-> FALSE, flushed |-> FALSE, wdel |-> FALSE]
+AfterAdd(d) == [on |-> TRUE, adds |-> d.adds + 1, other |-> d.other, flushed |-> FALSE, wdel |-> d.wdel]
+AfterOther(d) == [on |-> TRUE, adds |-> d.adds, other |-> TRUE, flushed |-> FALSE, wdel |-> d.wdel]
+AfterDel(d) == [AfterOther(d) EXCEPT !.wdel = TRUE]
+HasDel(ops) == \E i \in 1..Len(ops) : ops[i].k = "del"
 
 TReset ==
   /\ Ev.ev = "reset"
@@ -94,14 +97,14 @@ TDel ==
   /\ Ev.ev = "del" /\ Ev.ok /\ wopen
   /\ Ev.opstamp >= lo /\ lo' = Ev.opstamp + 1
   /\ pend' = ODel(pend, Ev.pred)
-  /\ dirty' = AfterOther(dirty)
+  /\ dirty' = AfterDel(dirty)
   /\ UNCHANGED <<commd, metaop, payload, wopen, wCreated, sorted, kf>>
 
 TRun ==
   /\ Ev.ev = "run" /\ Ev.ok /\ wopen
   /\ Ev.opstamp >= lo + Len(Ev.ops) /\ lo' = Ev.opstamp + 1
   /\ pend' = ORun(pend, Ev.ops)
-  /\ dirty' = AfterOther(dirty)
+  /\ dirty' = IF HasDel(Ev.ops) THEN AfterDel(dirty) ELSE AfterOther(dirty)
   /\ UNCHANGED <<commd, metaop, payload, wopen, wCreated, sorted, kf>>
 
 \* delete_all_documents mirrors the code: the stamper is reverted to the (stale) opstamp of
@@ -112,8 +115,12 @@ TDeleteAll ==
   /\ pend' = {}
   \* (when the only pending operations are plain adds and the hook state has shown that all of them sit
   \* in uncommitted segments, the outcome is determined: delete_all clears that register)
-  /\ kf' = (kf \/ (IF dirty.on /\ ~dirty.flushed THEN Known("F-B/F-C delete_all with pending operations") ELSE FALSE))
-  /\ dirty' = AfterOther(Clean)
+  /\ kf' = (kf \/ (IF dirty.on /\ ~dirty.flushed THEN Known("F-B/F-C delete_all with pending operations") ELSE FALSE)
+               \* the stamper goes back to the opstamp of WRITER CREATION (commit_opstamp() is stale, F-A): below every
+               \* delete this writer object has issued so far, committed or not - a later add that such an old delete
+               \* matches is deleted (recorded finding F52)
+               \/ (IF dirty.wdel THEN Known("F52 delete_all after deletes of the same writer") ELSE FALSE))
+  /\ dirty' = [AfterOther(Clean) EXCEPT !.wdel = dirty.wdel]
   /\ UNCHANGED <<commd, metaop, payload, wopen, wCreated, sorted>>
 
 TCommit ==
@@ -131,7 +138,7 @@ TCommit ==
   /\ ("writer_commit_opstamp" \in DOMAIN Ev =>
         IF Ev.writer_commit_opstamp = Ev.opstamp THEN TRUE
         ELSE Ev.writer_commit_opstamp = wCreated /\ Known("F-A commit_opstamp() is stale"))
-  /\ dirty' = Clean
+  /\ dirty' = [Clean EXCEPT !.wdel = dirty.wdel]
   /\ UNCHANGED <<pend, wopen, wCreated, sorted, kf>>
 
 \* rollback() and PreparedCommit::abort(): precisely the last committed state
